@@ -328,6 +328,12 @@ def runC17 (c : CaseIn) : Array String := Id.run do
         stopHung := true
         let shape := if name == "stop" then "stop-hang" else name
         out := out.push s!"ORACLE-FAIL C17 case {c.num} line {ln}: shape={shape} Stop did not return within 15 s ({" ".intercalate c.header})"
+      else match words obs with
+        -- `HANG <site>`: the scenario names the function the goroutine Stop waits for is parked in
+        | ["HANG", site] =>
+          stopHung := true
+          out := out.push s!"ORACLE-FAIL C17 case {c.num} line {ln}: shape={site} Stop did not return within 15 s, blocked behind {site} ({" ".intercalate c.header})"
+        | _ => pure ()
     | ["call", call] =>
       match words obs with
       | ["hung", k] =>
